@@ -156,6 +156,96 @@ theorem navigate_current_value_scope (root : Json) (b : Block) (rest : List Bloc
   simp only [blockValue, hbv]
   cases descend v0 (n :: ns) <;> rfl
 
+/-- the peek loop counts the leading `../` and looks the first name up among the block parameters -/
+theorem visitorScan_ups (blocks : List Block) (k d : Nat) (n : Str) (ns : List Str) :
+    visitorScan blocks (List.replicate k PathSeg.up ++ names (n :: ns)) d = (d + k, getInBlockParams blocks n, false) := by
+  induction k generalizing d with
+  | zero => simp [visitorScan, names]
+  | succ k ih =>
+    simp only [List.replicate_succ, List.cons_append, visitorScan]
+    rw [ih (d + 1)]
+    simp; omega
+
+/-- `{{../../a.b}}` – `k ≥ 1` leading `../`, `k` not beyond the outermost scope, head not a block
+    parameter – in a scope held as a *path*: the names are resolved from the value of the scope `k`
+    levels out, whatever the inner scopes are. -/
+theorem navigate_parent_path_scope (root : Json) (blocks : List Block) (k : Nat) (b : Block) (n : Str) (ns : List Str)
+    (rc : RC) (out : Out) (hk : 0 < k) (hb : blocks[k]? = some b)
+    (hbp : getInBlockParams blocks n = none) (hbv : b.baseValue = none)
+    (hsafe : indexSafe root (b.basePath ++ n :: ns) = true) :
+    navigate root (List.replicate k PathSeg.up ++ names (n :: ns)) blocks rc out =
+      match (blockValue root b).bind (fun v => descend v (n :: ns)) with
+      | some v => .ok (.context v (b.basePath ++ n :: ns)) rc out
+      | none => .ok .missing rc out := by
+  have hm := mergeJsonPath_ups b.basePath k (n :: ns)
+  have hs := visitorScan_ups blocks k 0 n ns
+  simp only [Nat.zero_add] at hs
+  simp only [navigate, parseJsonVisitor, hs, hbp, hk, gt_iff_lt, ↓reduceIte, hb, Option.bind, hbv, hm]
+  rw [walk_refines_descend root _ hsafe, descend_append]
+  simp only [blockValue, hbv]
+  cases descend root b.basePath with
+  | none => rfl
+  | some v0 =>
+    simp only [Option.bind]
+    cases descend v0 (n :: ns) <;> rfl
+
+/-- the same when the scope `k` levels out is held as a *value* -/
+theorem navigate_parent_value_scope (root : Json) (blocks : List Block) (k : Nat) (b : Block) (n : Str) (ns : List Str)
+    (rc : RC) (out : Out) (v0 : Json) (hk : 0 < k) (hb : blocks[k]? = some b)
+    (hbp : getInBlockParams blocks n = none) (hbv : b.baseValue = some v0)
+    (hsafe : indexSafe v0 (n :: ns) = true) :
+    navigate root (List.replicate k PathSeg.up ++ names (n :: ns)) blocks rc out =
+      match (blockValue root b).bind (fun v => descend v (n :: ns)) with
+      | some v => .ok (.derived v) rc out
+      | none => .ok .missing rc out := by
+  have hm := mergeJsonPath_ups [] k (n :: ns)
+  simp only [List.nil_append] at hm
+  have hs := visitorScan_ups blocks k 0 n ns
+  simp only [Nat.zero_add] at hs
+  simp only [navigate, parseJsonVisitor, hs, hbp, hk, gt_iff_lt, ↓reduceIte, hb, Option.bind, hbv, hm]
+  rw [walk_refines_descend v0 _ hsafe]
+  simp only [blockValue, hbv]
+  cases descend v0 (n :: ns) <;> rfl
+
+/-- a first name that is a block parameter holding a *value* (`as |x|` over a literal, a subexpression
+    result, an `each` element of a value-held collection) is resolved from that value – regardless of
+    any `../` written in front of it (the reading fixed in DESIGN §5 C01) -/
+theorem navigate_block_param_value (root : Json) (blocks : List Block) (k : Nat) (n : Str) (ns : List Str)
+    (rc : RC) (out : Out) (v0 : Json) (base : List Str)
+    (hbp : getInBlockParams blocks n = some (.value v0, base)) (hsafe : indexSafe v0 ns = true) :
+    navigate root (List.replicate k PathSeg.up ++ names (n :: ns)) blocks rc out =
+      match descend v0 ns with
+      | some v => .ok (.derived v) rc out
+      | none => .ok .missing rc out := by
+  have hs := visitorScan_ups blocks k 0 n ns
+  simp only [Nat.zero_add] at hs
+  have hlen : k + 1 ≤ (List.replicate k PathSeg.up ++ names (n :: ns)).length := by simp [names]
+  have hdrop : (List.replicate k PathSeg.up ++ names (n :: ns)).drop (k + 1) = names ns := by
+    simp [names, List.drop_append]
+  have hm : mergeJsonPath [] (names ns) = ns := by simpa using mergeJsonPath_names [] ns
+  simp only [navigate, parseJsonVisitor, hs, hbp, sliceFrom?, hlen, ↓reduceIte, Option.map, hdrop, hm]
+  rw [walk_refines_descend v0 _ hsafe]
+  cases descend v0 ns <;> rfl
+
+/-- … and a block parameter held as a *path* (an `each` element / `with` value that lives in the root
+    data) is resolved from the root along the recorded path -/
+theorem navigate_block_param_path (root : Json) (blocks : List Block) (k : Nat) (n : Str) (ns : List Str)
+    (rc : RC) (out : Out) (ps base : List Str)
+    (hbp : getInBlockParams blocks n = some (.path ps, base)) (hsafe : indexSafe root (base ++ ps ++ ns) = true) :
+    navigate root (List.replicate k PathSeg.up ++ names (n :: ns)) blocks rc out =
+      match descend root (base ++ ps ++ ns) with
+      | some v => .ok (.context v (base ++ ps ++ ns)) rc out
+      | none => .ok .missing rc out := by
+  have hs := visitorScan_ups blocks k 0 n ns
+  simp only [Nat.zero_add] at hs
+  have hlen : k + 1 ≤ (List.replicate k PathSeg.up ++ names (n :: ns)).length := by simp [names]
+  have hdrop : (List.replicate k PathSeg.up ++ names (n :: ns)).drop (k + 1) = names ns := by
+    simp [names, List.drop_append]
+  have hm : mergeJsonPath (base ++ ps) (names ns) = base ++ ps ++ ns := mergeJsonPath_names _ ns
+  simp only [navigate, parseJsonVisitor, hs, hbp, sliceFrom?, hlen, ↓reduceIte, Option.map, hdrop, hm]
+  rw [walk_refines_descend root _ hsafe]
+  cases descend root (base ++ ps ++ ns) <;> rfl
+
 /-- `@root.a.b` starts at the data passed to render, whatever the scope stack is -/
 theorem navigate_root (root : Json) (blocks : List Block) (ns : List Str) (rc : RC) (out : Out)
     (hsafe : indexSafe root ns = true) :
